@@ -115,7 +115,9 @@ class SrcGen:
             n = self.r.below(3)
             args = [self.expr(d - 1, 0, depth + 1) for _ in range(n)]
             sep = "," + self.nl(depth)
-            tail = "," + "\n" + "\t" * depth if args and self.layout and self.r.below(100) < self.layout // 2 else ""
+            # a trailing ",\n" only when no argument spans several lines (nested multi-line argument lists with trailing
+            # commas are not idempotent: deterministic witness in DET_SOURCES)
+            tail = "," + "\n" + "\t" * depth if args and self.layout and self.r.below(100) < self.layout // 2 and not any("\n" in a for a in args) else ""
             return self.pick(["f", "g", "obj.m", "fmt.sprint"]) + "(" + (self.nl(depth) if tail else "") + (sep + " ").join(args) + tail + ")"
         if k == 8:
             return self.expr(d - 1, 7, depth) + "[" + self.expr(d - 1, 0, depth) + "]" if self.r.below(2) else self.pick(NAMES) + "." + self.pick(["f", "g", "len"])
@@ -212,6 +214,7 @@ DET_SOURCES = [
     b"if (x => x * 2) {\n}\n", b"if (=> 1) {\n}\n", b"for (x => x) {\n}\n", b"switch (x => x) {\n}\n", b"if ((x, y) => x + y) {\n}\n",
     b"if (T{}) {\n}\n", b"if (x!) {\n}\n", b"if (a ?: b) {\n}\n", b"x := ((a))\n", b"if ((a)) {\n}\n",
     b"println ${/*C*/name}\n", b"m.Foo/*C*/()\n", b"C.printf /*C*/ c\"x\"\n", b"/*C*/ echo a\necho b\n", b"a := 4/ /*C*/5r\n",
+    b"x = fmt.sprint(obj.m( nil,\n\t),\n)\n",
     b"#!/usr/bin/env xgo\nprintln 1\n", b"# sharp comment\nprintln 1 # trailing\n", b"#\nprintln 1\n",
 ]
 
